@@ -47,6 +47,13 @@ pub mod arraydeque {
                 old(self).view().len() < N ==> r.is_none() && final(self).view() == old(self).view().push(x),
                 old(self).view().len() >= N ==> r == Some(old(self).view()[0]) && final(self).view() == old(self).view().drop_first().push(x),
         { unimplemented!() }
+        // push_front (not used by the extracted text today; present so that a change to it is decided, not undecided)
+        #[verifier::external_body]
+        pub fn push_front(&mut self, x: T) -> (r: Option<T>)
+            ensures
+                old(self).view().len() < N ==> r.is_none() && final(self).view() == seq![x] + old(self).view(),
+                old(self).view().len() >= N ==> r == Some(old(self).view().last()) && final(self).view() == seq![x] + old(self).view().drop_last(),
+        { unimplemented!() }
     }
 }
 pub mod heapless {
@@ -371,7 +378,7 @@ fn process_sequences_loop(&mut self)
             && self.states@ == heapless::pick(st0, d);
         lemma_pick_without_fake(st0, d, keycode);
     }
-//@@ before-re 1 /if [^{}]*\{\s*(?:\/\/[^\n]*\n\s*)*self\.active_sequences\.push_back\(seq\);/
+//@@ before-re 1 /if !seq\.remaining_events\.is_empty\(\) \{/
     proof {
         assert(view_of(seq).delay == step_v(q0).delay);
         assert(view_of(seq).tapped == step_v(q0).tapped);
